@@ -65,7 +65,7 @@ type Row struct {
 }
 
 type Fault struct {
-	Kind string `json:"kind"` // none failAt stopAt sleepAt sizeCap
+	Kind string `json:"kind"` // none failAt stopAt sleepAt sizeCap panicAt
 	K    int    `json:"k"`
 	D    int    `json:"d"`
 	Max  int    `json:"max"`
@@ -135,6 +135,11 @@ func errClass(err error) string {
 		return "deadline"
 	case err == zenodb.ErrOutOfMemory || s == zenodb.ErrOutOfMemory.Error():
 		return "oom"
+	case strings.Contains(s, "Panic while") || strings.Contains(s, consumerPanic):
+		// a panic in per-row processing, turned into the query's error by a recover boundary
+		// (table.go safeOnValue, planner sub-query goroutine, web doQuery, rpc/server Query,
+		// cluster_query.go queryForRemote)
+		return "panic"
 	case strings.Contains(s, errConsumer.Error()):
 		return "consumer"
 	case strings.Contains(s, errSource.Error()):
